@@ -797,8 +797,11 @@ def move_before_loop(source: str) -> str:
             new_node.lineno = scope.lineno - 1
             new_node.col_offset = scope.col_offset
 
-            source = processing.alter_code(source, root, additions=[new_node], removals=[node])
-            return move_before_loop(source)
+            new_source = processing.alter_code(
+                source, root, additions=[new_node], removals=[node]
+            )
+            if new_source != source:  # Unchanged if the lines involved are opted out
+                return move_before_loop(new_source)
 
     return source
 
@@ -1329,8 +1332,11 @@ def _swap_implicit_if_else(source: str) -> str:
                 break
 
     if replacements or removals:
-        source = processing.alter_code(source, root, replacements=replacements, removals=removals)
-        return _swap_explicit_if_else(source)
+        new_source = processing.alter_code(
+            source, root, replacements=replacements, removals=removals
+        )
+        if new_source != source:  # Unchanged if the lines involved are opted out
+            return _swap_explicit_if_else(new_source)
 
     return source
 
@@ -3736,8 +3742,11 @@ def missing_context_manager(source: str) -> str:
         break
 
     if replacements:
-        source = processing.alter_code(source, root, replacements=replacements, removals=removals)
-        return missing_context_manager(source)
+        new_source = processing.alter_code(
+            source, root, replacements=replacements, removals=removals
+        )
+        if new_source != source:  # Unchanged if the lines involved are opted out
+            return missing_context_manager(new_source)
 
     return source
 
@@ -3838,8 +3847,11 @@ def _fix_duplicate_regular_imports(source: str) -> str:
                     removals.add(node)
 
     if replacements or removals:
-        source = processing.alter_code(source, root, replacements=replacements, removals=removals)
-        return _fix_duplicate_regular_imports(source)
+        new_source = processing.alter_code(
+            source, root, replacements=replacements, removals=removals
+        )
+        if new_source != source:  # Unchanged if the lines involved are opted out
+            return _fix_duplicate_regular_imports(new_source)
 
     return source
 
